@@ -31,12 +31,17 @@ Clauses of the statement -> subchecks
     C02.hard_edges.only_declared   no completed edge is flagged
     C02.hard_edges.declared_flagged  declared edges are flagged when completed ones exist
     C02.rebuild.<container>        building again (once / twice) from the built mesh changes nothing
+                                   (also: after an empty editing block, after two edits)
+    ...|file_form:<form>           the same clauses on a file written in another form the format allows (mc/c02_hist.py)
+    ...|switches_changed_between_constructions   the same clauses on a mesh built again under other completion switches
+    ...|after_edit                 the clauses the containers determine by themselves, after an edit + construction
     C02.rows_independence.*        list / tuple / numpy twins: same content, same later behaviour
 """
 from __future__ import annotations
 import os, shutil, tempfile, traceback
 from mc.core import Report
 from mc import c02_lib as L
+from mc import c02_hist as H
 
 ID = "C02"
 TECHNIQUE = "bounded-exhaustive input family x entry points x config vs reference normaliser; differential twins"
@@ -45,7 +50,17 @@ RULE = ("every raw input of the compositional family (vertex count x ordered lis
         "attributes none/sparse/partly sparse/sparse with custom default/dense scalar/dense vector x corner containers absent/pre-filled x completion switches {T,F}^2) "
         "is built through every entry point and row container type, rebuilt from itself twice, and compared clause by "
         "clause with a reference normaliser; a case is one distinct (input, entry point, row type, switches); "
-        "non-trivial = at least one edge, face or cell declared")
+        "non-trivial = at least one edge, face or cell declared. Round 5 adds three dimensions (mc/c02_hist.py): FILE FORMS - "
+        "every harness-written file also in the other forms its reader handles (medit: Dimension 2 with vertex lines x y ref, "
+        "non-trivial reference columns, keyword and count on one line; OBJ: weight column and comments; OFF: counts on the "
+        "keyword line and comments; xyz: leading count line); SWITCH HISTORIES - every menu input and every subset of the faces "
+        "of the cells as the caller's face list, built under one setting of the completion switches and built again under "
+        "every other setting, then a third time (each stage = normal form, under its switches, of what the stage before "
+        "left); EDIT HISTORIES - every built menu mesh edited through every public route that constructs again (empty "
+        "Surface/VolumeSubdivision block, each block operation on each element, split_edge on each edge, RawMeshData(mesh) "
+        "+ clear() of the corner containers + appended vertex and element(s) + construction), all sequences of <= 2 steps on "
+        "one object, the container-determined clauses judged after every step and a final construction required to change "
+        "nothing")
 ASSUMPTIONS = [
     "vertex coordinates are dyadic rationals from two fixed point tables (generic position; two stacked unit cubes in "
     "the usual hexahedron numbering): construction never looks at geometry, the battery does and the twins share it",
@@ -71,6 +86,21 @@ ASSUMPTIONS = [
     "save -> load: the expectation is the normal form of what the written file carries (medit/obj: hard edges only, "
     "medit blocks in the writer's order); a save() that raises is counted, not reported (C04 owns the writers); the "
     "hard-edge clauses are skipped for geogram_ascii files, which carry their own hard_edges attribute",
+    "cell-face records when the face list lacks faces of the cells (completion off): the statement is read as 'no record at "
+    "all' or 'exactly one record per incidence whose face is listed, cell by cell with its owner'; both are accepted, "
+    "anything else (records of the leading cells only) is reported",
+    "file forms: only forms that the reader of the format handles on purpose (a branch or comment in mouette/mesh/io) are "
+    "written; a Dimension 2 medit file has no cells; reference columns hold 7+i (vertices) and 3+i (elements), never a "
+    "coordinate value of the point tables",
+    "switch histories: for the next construction the caller-declared edges of a built mesh are its flagged edges (all of "
+    "its edges when it has no hard_edges attribute: nothing was completed so far); a history whose first construction "
+    "already deviates is left to the clauses of the first construction (one defect, one fingerprint)",
+    "edit histories: what an editing operation does to the element lists, to earlier edges and to the hard-edge flags "
+    "belongs to C13; C02 judges on the result only what the containers determine by themselves (3-D Vec vertices; edges "
+    "valid, low index first, once, every side of every face / every face of every cell when the completion is on; exact "
+    "corner and cell-face records; class). The raw route mirrors what the library's own blocks do (RawMeshData(mesh), "
+    "clear() of face_corners / cell_corners / cell_faces, append, construct) and is compared with the full reference of "
+    "the enlarged input; an operation that raises is counted, not reported",
 ]
 BOUNDS = {
     "quick": "8 face menus x 4 cell menus (none, tet, 2 tets sharing a face, hex) x {T,F}^2 switches (those that are read); "
@@ -80,12 +110,21 @@ BOUNDS = {
              "elements only) on attribute-free inputs; every input also through: class constructor, tuple rows, numpy rows, "
              "from_arrays 3-D/2-D, a harness-written file in 6 text formats, mouette save -> load in 6 text formats; every "
              "built mesh rebuilt twice; twins battery (about 60 behaviours) on the 32 menus x edge lists of <= 1 symbol, "
-             "default switches",
+             "default switches; file forms: 3 medit + 1 OBJ + 1 OFF + 1 xyz form on every attribute-free input the format can "
+             "declare; switch histories sw1 -> sw2 != sw1 -> sw1 over the settings the input reads, on the 31 menus with faces or "
+             "cells x edge lists of <= 1 symbol x attributes none / sparse, and on all 16 + 128 + 64 subsets of the faces of tet / "
+             "tet2 / hex x {no edge, one reversed edge with attributes}; edit histories on the 32 menus x edge lists of <= 1 symbol "
+             "(row type list / tuple / numpy in rotation), default switches: every single step, every second step on every other "
+             "edge list, final rebuild after two steps",
     "thorough": "8 face menus x 6 cell menus (+ tet+hex, 2 hexes sharing a face) x {T,F}^2; all ordered lists of <= 3 distinct "
                 "edge symbols over 9 symbols (498 lists) for the baseline entry point (lists of 3: vertex count needed, "
                 "attributes none / sparse / dense scalar), the 78 lists of <= 2 symbols for the other entry points / row "
                 "types; vertex count needed and needed+1 (needed for class constructor / tuple / numpy rows); same attributes / "
-                "corners / entry points as quick; twins battery on 48 menus x edge lists of <= 2 symbols, switches {T,F}^2",
+                "corners / entry points as quick; twins battery on 48 menus x edge lists of <= 2 symbols, switches {T,F}^2; file "
+                "forms as quick on the thorough inputs; switch histories sw1 -> sw2 != sw1 -> every sw3 on 47 menus x edge lists "
+                "of <= 2 symbols x attributes none / sparse / sparse with custom default / dense, and on all subsets of the faces "
+                "of the six cell menus (16, 128, 64, 1024, 2048); edit histories on 48 menus x edge lists of <= 1 symbol x "
+                "switches {T,F}^2, all sequences of <= 2 steps",
 }
 
 DEFAULT_SW = (True, True)
@@ -93,7 +132,8 @@ FORMATS = ["mesh", "obj", "off", "tet", "xyz", "geogram_ascii"]
 # "inst_peek": like "inst", but the public raw.dimensionality property is read while the data is being assembled (after
 # the vertices and again after the edges): a lazily cached value must not survive later additions
 VARIANTS = [("inst", "list"), ("ctor", "list"), ("inst_peek", "list"), ("inst", "tuple"), ("inst", "numpy"), ("arrays", "numpy"),
-            ("arrays2d", "numpy")] + [("file:" + f, "list") for f in FORMATS] + [("saveload:" + f, "list") for f in FORMATS]
+            ("arrays2d", "numpy")] + [("file:" + f, "list") for f in FORMATS] + [("saveload:" + f, "list") for f in FORMATS] \
+    + [(e, "list") for e in H.FORM_ENTRIES]              # file forms (declared dimension, label columns, layout), mc/c02_hist.py
 
 
 # ------------------------------------------------------------------------------------------------ tasks
@@ -101,7 +141,7 @@ def _applicable(entry, F, C):
     if entry in ("arrays", "arrays2d"):
         return len(set(len(f) for f in F)) <= 1 and len(set(len(c) for c in C)) <= 1
     if entry.startswith("file:"):
-        fmt = entry[5:]
+        fmt = H.split_entry(entry)[0]
         return L.format_can_declare(fmt, [], F, C) or (fmt in ("mesh", "obj", "geogram_ascii") and L.format_can_declare(fmt, [[0, 1]], F, C))
     if entry.startswith("saveload:"):
         fmt = entry[9:]
@@ -133,11 +173,25 @@ def tasks(tier):
                     continue
                 out.append({"kind": "twins", "F": fname, "C": cname, "cE": cE, "cF": cF,
                             "maxlen": 1 if tier == "quick" else 2})
+            # histories (mc/c02_hist.py): construction again under other completion switches; edits between two constructions
+            if F or C:
+                out.append({"kind": "flip", "F": fname, "C": cname, "tier": tier})
+            for cE, cF in sws:
+                if not C and not cF:
+                    continue
+                out.append({"kind": "edits", "F": fname, "C": cname, "cE": cE, "cF": cF, "tier": tier})
+    # every subset of the faces of the cells as the caller's face list (16 per task)
+    for cname in cells:
+        nf = len(L.all_cell_faces(L.CELL_MENU[cname]))
+        if nf == 0 or (tier == "quick" and nf > 7):
+            continue
+        for lo in range(0, 2 ** nf, 16):
+            out.append({"kind": "subsets", "F": "sub", "C": cname, "masks": list(range(lo, min(lo + 16, 2 ** nf))), "tier": tier})
     # a few cheap representative tasks first (a violation is replayed on the first task that showed it), then the
     # expensive ones so that the pool stays balanced
     def rank(t):
         cheap = t["C"] in ("tet", "none") and t["F"] in ("tri", "none") and t.get("part", 0) == 0
-        return (not cheap, t["C"] not in ("hex2", "tet_hex", "hex"), t["kind"] != "norm", t["C"] == "none")
+        return (not cheap, t["C"] not in ("hex2", "tet_hex", "hex"), t["kind"] != "norm", t["C"] == "none", t["kind"])
     out.sort(key=rank)
     return out
 
@@ -226,10 +280,12 @@ def build(M, inp, entry, rows, tmp, wantcls):
                 F = np.array(inp["F"], dtype=int) if inp["F"] else None
                 C = np.array(inp["C"], dtype=int) if inp["C"] else None
                 return Built(M.mesh.from_arrays(V, E, F, C))
-            fmt = entry[5:]
+            fmt, form = H.split_entry(entry)
             pts = L.CUBE_PTS if inp["pts"] == "CUBE" else L.G_PTS
             V = [pts[i] for i in range(inp["nv"])]
-            if fmt == "geogram_ascii":
+            if form is not None:
+                text = H.FORM_WRITERS[fmt](form, V, inp["E"], inp["F"], inp["C"])
+            elif fmt == "geogram_ascii":
                 w = None
                 if inp["attr"] != "none" and inp["E"]:
                     pos = L.attr_positions(inp["attr"], len(inp["E"]))
@@ -381,7 +437,7 @@ def evaluate(M, inp, entry, rows, tmp, rep):
     if entry.startswith("saveload:"):
         return evaluate_saveload(M, inp, entry[9:], tmp, rep)
     ref = L.reference(inp["nv"], L.CUBE_PTS if inp["pts"] == "CUBE" else L.G_PTS, inp["E"], inp["F"], inp["C"],
-                      inp["cE"], inp["cF"], pad2d=(entry == "arrays2d"))
+                      inp["cE"], inp["cF"], pad2d=(entry == "arrays2d" or entry.endswith("+dim2")))
     wantcls = L.expected_class(ref, len(ref["faces_decl"]) + len(ref["faces_completed"]))
     b = build(M, inp, entry, rows, tmp, wantcls)
     rep.traces += 1
@@ -396,7 +452,7 @@ def evaluate(M, inp, entry, rows, tmp, rep):
     rep.outcome("build", type(b.mesh).__name__)
     o = L.observe(b.mesh)
     inp2 = dict(inp)
-    if entry == "arrays2d":
+    if entry == "arrays2d" or entry.endswith("+dim2"):
         inp2["pad2d"] = True
     if entry.startswith("file:"):
         inp2["attr_names"] = ["w"]
@@ -417,6 +473,10 @@ def evaluate(M, inp, entry, rows, tmp, rep):
         rep.count("inputs_with_dropped_edges")
     if ref["faces_completed"]:
         rep.count("inputs_with_completed_faces")
+    if inp["C"] and not inp["cF"]:
+        k_, n_ = L.listed_incidences(inp["F"], inp["C"])
+        if 0 < k_ < n_:
+            rep.count("inputs_with_partly_listed_cell_faces")
     if inp["attr"] != "none" and ref["surv"]:
         rep.count("inputs_with_attributes_on_surviving_edges")
     return devs, o
@@ -434,8 +494,10 @@ def report(rep, devs, inp, entry, rows, baseline_keys, seen_local):
         if baseline_keys is None or icls == "cells:complete_faces_from_cells=False":
             callee = "RawMeshData.prepare" if sub != "C02.class" else "_instanciate_raw_mesh_data"
         else:
-            callee = CALLEE.get(entry) or ("load(." + entry[5:] + ")" if entry.startswith("file:") else "save+load(." + entry[9:] + ")")
-            if entry == "inst":
+            callee = CALLEE.get(entry) or ("load(." + H.split_entry(entry)[0] + ")" if entry.startswith("file:") else "save+load(." + entry[9:] + ")")
+            if entry.startswith("file:") and H.split_entry(entry)[1]:
+                icls = icls + "|file_form:" + H.split_entry(entry)[1]
+            elif entry == "inst":
                 icls = icls + "|" + rows + "_rows_only"
             elif entry == "arrays2d" and sub == "C02.vertices":
                 pass
@@ -499,9 +561,11 @@ def variant_applies(entry, rows, inp, tier):
     if entry in ("arrays", "arrays2d"):
         return plain and _applicable(entry, F, C)
     if entry.startswith("file:"):
-        fmt = entry[5:]
+        fmt, form = H.split_entry(entry)
         if inp["nv"] == 0 or inp["prefill"] != "absent" or not L.format_can_declare(fmt, E, F, C):
             return False
+        if form is not None:
+            return inp["attr"] == "none" and H.form_applies(fmt, form, E, F, C)
         return inp["attr"] == "none" or (fmt == "geogram_ascii" and inp["attr"] in ("sparse_all", "sparse_some"))
     if entry.startswith("saveload:"):
         return plain and _applicable(entry, F, C)
@@ -680,12 +744,249 @@ def _short(v):
     return v if len(s) < 600 else s[:600] + "..."
 
 
+# ------------------------------------------------------------------------------------------------ histories
+def _hist_report(rep, seen_local, devs, callee, icls_suffix, detail):
+    for sub, kind, icls, det in devs:
+        fp = (sub, callee, kind, icls + icls_suffix)
+        n = seen_local.get(fp, 0)
+        seen_local[fp] = n + 1
+        if n >= 2:
+            rep.violation(sub, callee, kind, icls + icls_suffix, None)
+            continue
+        d = dict(detail)
+        d.update(det)
+        rep.violation(sub, callee, kind, icls + icls_suffix, d)
+
+
+def _hist_inputs(task, maxlen, modes):
+    """inputs of the history tasks: the menu x ordered edge lists of <= maxlen symbols x attribute modes, list rows"""
+    F, C = L.FACE_MENU[task["F"]], L.CELL_MENU[task["C"]]
+    need = L.nv_needed(F, C) or 4
+    for k, seq in enumerate(L.edge_lists(L.SYMS_SMALL, maxlen)):
+        E = [L.resolve(s_, need) for s_ in seq]
+        for mode in (modes if E else ["none"]):
+            yield k, {"pts": "CUBE" if "hex" in task["C"] else "G", "nv": need, "E": E, "F": F, "C": C, "attr": mode,
+                      "prefill": "absent"}
+
+
+def _flip_from(M, rep, inp0, F, C, fname, cname, tier, seen_local, states, own_baseline=False):
+    """all switch histories of one input: build under sw1, build again under sw2 != sw1 (class constructor), then under
+    sw3 (_instanciate_raw_mesh_data); every stage is the normal form, under its own switches, of what the stage before
+    left.  own_baseline: the first construction is also judged here (inputs that the norm tasks do not contain)."""
+    from mouette.mesh.mesh import _instanciate_raw_mesh_data
+    settings = H.distinct_settings(F, C)
+    pts = L.CUBE_PTS if inp0["pts"] == "CUBE" else L.G_PTS
+    for sw1 in settings:
+        inp = dict(inp0, cE=sw1[0], cF=sw1[1])
+        ref = L.reference(inp["nv"], pts, inp["E"], F, C, sw1[0], sw1[1])
+        wantcls = L.expected_class(ref, len(ref["faces_decl"]) + len(ref["faces_completed"]))
+        if own_baseline:
+            devs0, _o = evaluate(M, inp, "inst", "list", None, rep)
+            report(rep, devs0, inp, "inst", "list", None, seen_local)
+            rep.count("subset_builds_checked")
+            k_, n_ = L.listed_incidences(F, C)
+            if 0 < k_ < n_ and not sw1[1]:
+                rep.count("subset_builds_with_partly_listed_cell_faces")
+            if devs0:
+                continue
+        else:
+            b0 = build(M, inp, "inst", "list", None, wantcls)
+            if b0.mesh is None or L.compare(L.observe(b0.mesh), ref, dict(inp)):
+                rep.count("flip_skipped_first_build_fails_or_deviates")   # reported by the norm tasks: one defect, one fingerprint
+                continue
+        for sw2 in settings:
+            if sw2 == sw1:
+                continue
+            # third stage: back to the first setting (quick); every setting (thorough)
+            for sw3 in ([sw1] if tier == "quick" else settings):
+                m = build(M, inp, "inst", "list", None, wantcls).mesh
+                rep.transitions += 1
+                o_prev = L.observe(m)
+                detail = {"input": {k_: inp[k_] for k_ in ("pts", "nv", "E", "F", "C", "attr")}, "switches": [list(sw1), list(sw2), list(sw3)]}
+                for stage, sw in ((1, sw2), (2, sw3)):
+                    try:
+                        with Switches(M, sw[0], sw[1]):
+                            m = type(m)(M.mesh.RawMeshData(m)) if stage == 1 else _instanciate_raw_mesh_data(M.mesh.RawMeshData(m))
+                    except Exception as e:  # noqa: BLE001
+                        _hist_report(rep, seen_local, [("C02.rebuild.completes", "raises:" + type(e).__name__, "in:" + L.lib_root(e.__traceback__),
+                                                        {"msg": str(e)[:200], "stage": stage})], "RawMeshData.prepare", "|switches_changed_between_constructions", detail)
+                        break
+                    rep.transitions += 1
+                    o_now = L.observe(m)
+                    devs = H.stage_devs(o_prev, o_now, sw[0], sw[1], "rebuild")
+                    for d in devs:
+                        d[3]["stage"] = stage
+                    _hist_report(rep, seen_local, devs, "RawMeshData.prepare", "|switches_changed_between_constructions", detail)
+                    rep.evaluations += 18
+                    rep.outcome("flip", "same" if L.okey(o_now) == L.okey(o_prev) else "grown")
+                    if devs:
+                        break                                # later stages start from a wrong state
+                    states.add(L.okey(o_now))
+                    o_prev = o_now
+                rep.traces += 1
+                rep.count("flip_histories")
+                rep.case(("flip", fname, cname, inp["E"], inp["attr"], sw1, sw2, sw3))
+
+
+def run_flip(task, rep):
+    import mouette as M
+    tier = task["tier"]
+    F, C = L.FACE_MENU[task["F"]], L.CELL_MENU[task["C"]]
+    seen_local = {}
+    states = set()
+    modes = ["none", "sparse_all"] if tier == "quick" else ["none", "sparse_all", "sparse_dflt", "dense"]
+    try:
+        for k, inp0 in _hist_inputs(task, 1 if tier == "quick" else 2, modes):
+            _flip_from(M, rep, inp0, F, C, task["F"], task["C"], tier, seen_local, states)
+    finally:
+        M.config.complete_edges_from_faces, M.config.complete_faces_from_cells = DEFAULT_SW
+    rep.states += len(states)
+    rep.count("tasks:flip")
+
+
+def run_subsets(task, rep):
+    """caller-supplied face lists that hold any subset of the faces of the cells (none ... all), each under every
+    setting of the switches: first construction against the reference, then the switch histories"""
+    import mouette as M
+    tier = task["tier"]
+    C = L.CELL_MENU[task["C"]]
+    seen_local = {}
+    states = set()
+    try:
+        for mask in task["masks"]:
+            F = L.subset_faces(C, mask)
+            need = L.nv_needed(F, C)
+            for E, mode in (([], "none"), ([[2, 1]], "sparse_all")):
+                inp0 = {"pts": "CUBE" if "hex" in task["C"] else "G", "nv": need, "E": E, "F": F, "C": C, "attr": mode, "prefill": "absent"}
+                _flip_from(M, rep, inp0, F, C, "sub:%d" % mask, task["C"], tier, seen_local, states, own_baseline=True)
+            rep.count("face_subsets")
+    finally:
+        M.config.complete_edges_from_faces, M.config.complete_faces_from_cells = DEFAULT_SW
+    rep.states += len(states)
+    rep.count("tasks:subsets")
+
+
+def run_edits(task, rep):
+    """edit a built mesh through every public route that constructs again, once and twice on one object"""
+    import mouette as M
+    tier = task["tier"]
+    F, C = L.FACE_MENU[task["F"]], L.CELL_MENU[task["C"]]
+    cE, cF = task["cE"], task["cF"]
+    seen_local = {}
+    states = set()
+    rowkinds = ("list", "tuple", "numpy")
+
+    def fresh(inp, rows, wantcls):
+        b = build(M, inp, "inst", rows, None, wantcls)
+        rep.transitions += 1
+        return b.mesh
+
+    def do(m, o_prev, step, detail):
+        """one step on the live object -> (mesh, observation) or None when the history ends here"""
+        try:
+            with Switches(M, cE, cF):
+                m2, kind, data = H.apply_step(M, m, step)
+        except Exception as e:  # noqa: BLE001
+            root = L.lib_root(e.__traceback__)
+            if step[0] == "raw" or step[1] == "noop" or root in ("prepare", "_prepare_edges", "_generate_face_corners", "_generate_cell_corners",
+                                                                 "_generate_cell_faces", "_complete_edges_from_faces", "_complete_faces_from_cells"):
+                _hist_report(rep, seen_local, [("C02.rebuild.completes", "raises:" + type(e).__name__, "in:" + root, {"msg": str(e)[:200]})],
+                             "RawMeshData.prepare", "|after_edit", detail)
+            else:
+                rep.count("edit_operation_raises:" + step[1] + ":" + type(e).__name__)      # the operation itself belongs to C13
+            return None
+        rep.transitions += 1
+        rep.flag("edit:" + step[0] + ":" + step[1])
+        o = L.observe(m2)
+        hc = "edited:" + step[0]
+        if kind == "identity":
+            devs = [("C02.rebuild." + f.replace("attribute:", "attr:"), "mismatch:changed_by_rebuild", "empty_editing_block", {"got": g, "want": w})
+                    for f, g, w in L.diff_observations(o_prev, o)]
+        elif kind == "appended":
+            devs = H.appended_devs(o_prev, o, data, cE, cF, hc)
+        else:
+            devs = H.self_devs(o, cE, cF, hc)
+        rep.evaluations += 18
+        callee = {"raw": "RawMeshData.prepare", "split_edge": "split_edge"}.get(step[0]) or \
+            (("SurfaceSubdivision" if type(m).__name__ == "SurfaceMesh" else "VolumeSubdivision") + ".__exit__")
+        _hist_report(rep, seen_local, devs, callee, "|after_edit", detail)
+        rep.outcome("edit", kind + ":" + type(m2).__name__)
+        if devs:
+            return None
+        states.add(L.okey(o))
+        return m2, o
+
+    try:
+        for k, inp0 in _hist_inputs(task, 1, ["sparse_all"]):
+            inp = dict(inp0, cE=cE, cF=cF)
+            rows = rowkinds[k % 3]                                       # row type in rotation over the edge lists
+            ref = L.reference(inp["nv"], L.CUBE_PTS if inp["pts"] == "CUBE" else L.G_PTS, inp["E"], F, C, cE, cF)
+            wantcls = L.expected_class(ref, len(ref["faces_decl"]) + len(ref["faces_completed"]))
+            m0 = fresh(inp, rows, wantcls)
+            if m0 is None:
+                rep.count("edits_skipped_first_build_fails")
+                continue
+            o0 = L.observe(m0)
+            first = H.edit_steps(m0)
+            deep = tier != "quick" or k % 2 == 0                         # quick: second steps on every other edge list
+            for s1 in first:
+                base = {"input": {k_: inp[k_] for k_ in ("pts", "nv", "E", "F", "C", "attr", "cE", "cF")}, "rows": rows}
+                m = m0 if s1 is first[0] else fresh(inp, rows, wantcls)
+                r1 = do(m, o0, s1, dict(base, steps=[s1]))
+                rep.traces += 1
+                rep.count("edit_histories")
+                rep.case(("edit", task["F"], task["C"], inp["E"], cE, cF, s1))
+                if r1 is None:
+                    continue
+                seconds = H.edit_steps(r1[0]) if deep else []
+                for j, s2 in enumerate(seconds):
+                    if j == 0:
+                        mm, oo = r1
+                    else:
+                        mm = fresh(inp, rows, wantcls)
+                        with Switches(M, cE, cF):
+                            mm = H.apply_step(M, mm, s1)[0]
+                        oo = r1[1]
+                    r2 = do(mm, oo, s2, dict(base, steps=[s1, s2]))
+                    rep.traces += 1
+                    rep.count("edit_histories")
+                    rep.count("edit_histories_depth2")
+                    rep.case(("edit", task["F"], task["C"], inp["E"], cE, cF, s1, s2))
+                    if r2 is None:
+                        continue
+                    # a final construction from the edited mesh changes nothing
+                    try:
+                        with Switches(M, cE, cF):
+                            again = type(r2[0])(M.mesh.RawMeshData(r2[0]))
+                        d = L.diff_observations(r2[1], L.observe(again))
+                    except Exception as e:  # noqa: BLE001
+                        d = None
+                        _hist_report(rep, seen_local, [("C02.rebuild.completes", "raises:" + type(e).__name__, "in:" + L.lib_root(e.__traceback__), {"msg": str(e)[:200]})],
+                                     "RawMeshData.prepare", "|after_edit", dict(base, steps=[s1, s2, "rebuild"]))
+                    rep.transitions += 1
+                    rep.evaluations += 1
+                    if d:
+                        _hist_report(rep, seen_local, [("C02.rebuild." + f.replace("attribute:", "attr:"), "mismatch:changed_by_rebuild", "edited_mesh", {"got": g, "want": w})
+                                                       for f, g, w in d], "RawMeshData.prepare", "|after_edit", dict(base, steps=[s1, s2, "rebuild"]))
+                    rep.count("edit_final_rebuilds")
+    finally:
+        M.config.complete_edges_from_faces, M.config.complete_faces_from_cells = DEFAULT_SW
+    rep.states += len(states)
+    rep.count("tasks:edits")
+
+
 # ------------------------------------------------------------------------------------------------ entry points
 def run_task(task, rep: Report):
     import warnings
     warnings.filterwarnings("ignore")
     if task["kind"] == "norm":
         run_norm(task, rep)
+    elif task["kind"] == "flip":
+        run_flip(task, rep)
+    elif task["kind"] == "subsets":
+        run_subsets(task, rep)
+    elif task["kind"] == "edits":
+        run_edits(task, rep)
     else:
         run_twins(task, rep)
 
@@ -693,7 +994,7 @@ def run_task(task, rep: Report):
 def finish(tier, rep: Report):
     fails = ["oracle self-test: " + x for x in L.selftest()]
     n_norm = rep.counters.get("tasks:norm", 0)
-    n_tw = rep.counters.get("tasks:twins", 0)
+    n_tw = rep.counters.get("tasks:twins", 0) + rep.counters.get("tasks:flip", 0) + rep.counters.get("tasks:edits", 0) + rep.counters.get("tasks:subsets", 0)
     want = tasks(tier)
     full = n_norm + n_tw == len(want)
     if not full:
@@ -710,6 +1011,26 @@ def finish(tier, rep: Report):
             fails.append("never observed: " + c)
     if len(rep.outcomes.get("build", ())) < 4:
         fails.append("fewer than 4 distinct build outcomes")
+    # round 5: file forms, switch histories, subsets of the cell faces, edit histories really ran
+    for f in ["entry:" + e for e in H.FORM_ENTRIES] + ["edit:split_edge:split_edge", "edit:block:noop"] \
+            + ["edit:block:" + x for x in H.SURFACE_GLOBAL + H.SURFACE_LOCAL + H.VOLUME_LOCAL_CELL + H.VOLUME_LOCAL_FACE] \
+            + ["edit:raw:" + x for x in ("edge", "face", "edge+face", "cell", "edge+face+cell")]:
+        if f not in rep.flags:
+            fails.append("coverage flag missing: " + f)
+    for c in ("inputs_with_partly_listed_cell_faces", "subset_builds_with_partly_listed_cell_faces", "edit_final_rebuilds"):
+        if rep.counters.get(c, 0) == 0:
+            fails.append("never observed: " + c)
+    want_subsets = {"quick": 16 + 128 + 64, "thorough": 16 + 128 + 64 + 1024 + 2048}[tier]
+    if rep.counters.get("face_subsets", 0) != want_subsets:
+        fails.append(f"{rep.counters.get('face_subsets', 0)} subsets of the cell faces instead of {want_subsets}")
+    for c, fl in (("flip_histories", {"quick": 8000, "thorough": 200000}[tier]), ("edit_histories", {"quick": 40000, "thorough": 250000}[tier]),
+                  ("edit_histories_depth2", {"quick": 36000, "thorough": 240000}[tier])):
+        if rep.counters.get(c, 0) < fl:
+            fails.append(f"only {rep.counters.get(c, 0)} {c} (floor {fl})")
+    if len(rep.outcomes.get("flip", ())) < 2:
+        fails.append("switch histories: a construction under other switches never added anything (or always did)")
+    if len(rep.outcomes.get("edit", ())) < 6:
+        fails.append("fewer than 6 distinct edit outcomes")
     floor = {"quick": 40000, "thorough": 400000}[tier]            # DESIGN B: ~40 000 / ~400 000 builds
     if rep.counters.get("builds_checked", 0) < floor:
         fails.append(f"only {rep.counters.get('builds_checked', 0)} builds checked (floor {floor})")
